@@ -28,7 +28,7 @@ BODIES = {
     6: "from a import *\nx = K\ny = v\n",
 }
 
-INVARIANTS = ["FilesCoherent", "SourceCoherent", "InferNoStalePositive", "CachedIsWatched"]
+INVARIANTS = ["FilesCoherent", "SourceCoherent", "InferNoStalePositive", "ImportsCoherent", "CachedIsWatched"]
 
 
 def constants(max_ops, external=True, two_packages=False):
@@ -38,6 +38,7 @@ def constants(max_ops, external=True, two_packages=False):
         "ImportsOf": tlc.Sub("MCImports"),
         "InitTreesC": tlc.Sub("MCInitTreesC2" if two_packages else "MCInitTreesC"),
         "Universe": tlc.Sub("MCUniverse2" if two_packages else "MCUniverse"), "AllowExternal": external,
+        "ForgetOnStructure": True,
     }
 
 
@@ -342,6 +343,18 @@ def main(tier):
             if d not in seen:
                 seen.add(d)
                 behs.append(b)
+    sens = None
+    if tier == "thorough":
+        c = constants(5)
+        c["ForgetOnStructure"] = False
+        cfg = os.path.join(common.SCRATCH_BASE, "c13s_%d.cfg" % os.getpid())
+        tlc.write_cfg(cfg, constants=c, invariants=["ImportsCoherent"], view="View")
+        r2 = tlc.run("MC_RopeCache", cfg)
+        os.unlink(cfg)
+        sens = r2.violated
+        print("TLC RopeCache[sensitivity, pinned rope's rule]: violated =", sens)
+        if sens is None:
+            verdict.machinery_failure("model insensitive: without ForgetOnStructure ImportsCoherent still holds")
     behs.sort(key=lambda b: json.dumps(b["trail"], sort_keys=True))
     replayed = checked = 0
     nontrivial = set()
@@ -381,6 +394,7 @@ def main(tier):
                 "the query battery is compared with a brand-new Project on the same directory; non-trivial = a cache "
                 "was warmed and the tree changed afterwards or before",
         "tlc_runs": runs,
+        "model_sensitivity_without_structure_forgetting": sens,
         "known_finding_hits": verdict.known_hits,
     }, timer.s(), violations=len(verdict.violations), assumptions=[
         "external changes alter (mtime, size): mtimes are set explicitly and strictly increasing",
